@@ -273,6 +273,7 @@ func (b *book) dflt(t *gty) string {
 // ---------------------------------------------------------------------------------------------
 
 type bvar struct {
+	slice bool // a local slice taken from another slice or field: shares its backing array in Go
 	ty    *gty
 	alias ast.Expr // Go lvalue this local is an alias of (reference semantics)
 	bound bool     // for aliases: a Lean binding with the current value exists
@@ -650,6 +651,14 @@ func (c *bctx) setPath(path ast.Expr, v string, out *strings.Builder, ind string
 		c.typeOfStructField(bt, x.Sel.Name, path)
 		c.setPath(x.X, "({ ("+bs+") with "+x.Sel.Name+" := "+v+" } : "+c.b.leanType(bt)+")", out, ind)
 	case *ast.IndexExpr:
+		if id, ok := x.X.(*ast.Ident); ok {
+			if v, ok := c.vars[id.Name]; ok && v.slice {
+				// slices are translated as values; an element write through a second slice header over the
+				// same backing array would be lost
+				c.bad(path, "element write through a local slice that aliases another slice")
+				return
+			}
+		}
 		bs, bt := c.read(x.X)
 		is, _ := c.expr(x.Index)
 		switch bt.deref().kind {
@@ -796,6 +805,12 @@ func (c *bctx) define(name string, rhs ast.Expr, out *strings.Builder, ind strin
 	}
 	fmt.Fprintf(out, "%slet %s := %s\n", ind, name, s)
 	c.vars[name] = &bvar{ty: t}
+	if t.kind == "slice" {
+		switch rhs.(type) {
+		case *ast.SliceExpr, *ast.SelectorExpr, *ast.IndexExpr, *ast.Ident:
+			c.vars[name].slice = true
+		}
+	}
 }
 
 // mutating method call as a statement: recvExpr.M(args)
@@ -1241,7 +1256,13 @@ func (c *bctx) loop(rangeText string, idxName string, pre func(b *strings.Builde
 	names := c.assignedIn(body)
 	c.restoreVars(save)
 	if len(names) == 0 {
-		return // no effect
+		// no effect on outer variables — or the body is not translatable: translate it once for
+		// real (into a discarded buffer) so that a problem is recorded and not silently dropped
+		var discard strings.Builder
+		pre(&discard, "")
+		c.block(body, bcont{fall: "()", cont: "()", ret: func([]string) string { return "()" }}, &discard, "")
+		c.restoreVars(save)
+		return
 	}
 	tup := tupleOf(names)
 	fmt.Fprintf(out, "%slet %s := (%s).foldl (fun %s %s =>\n", ind, tup, rangeText, tup, idxName)
@@ -1306,6 +1327,10 @@ func (c *bctx) rangeStmt(s *ast.RangeStmt, out *strings.Builder, ind string) {
 		if len(names) != 1 || names[0] != valName {
 			c.restoreVars(save)
 			if len(names) == 0 {
+				var discard strings.Builder
+				c.vars[valName] = &bvar{ty: xt.elem}
+				c.block(s.Body.List, bcont{fall: "()", cont: "()", ret: func([]string) string { return "()" }}, &discard, "")
+				c.restoreVars(save)
 				return
 			}
 			c.bad(s, "range over a map whose body assigns "+strings.Join(names, ","))
